@@ -336,11 +336,6 @@ theorem spec_deleteExpired (p : Policy) (now : Nat) (a : AMap σ) :
     (specStep p now .deleteExpired a).1 = a := rfl
 
 /-- Calls that do not mention an id do not touch it. -/
-def SOp.mentions : SOp σ → Nat → Bool
-  | .create i _ _, j | .update i _ _, j | .updateTtl i _, j | .load i, j | .delete i, j => i == j
-  | .changeId o n, j => o == j || n == j
-  | .deleteExpired, _ => false
-
 theorem spec_frame (p : Policy) (now : Nat) (op : SOp σ) (a : AMap σ) (j : Nat) (h : op.mentions j = false) :
     (specStep p now op a).1 j = a j := by
   cases op with
@@ -383,8 +378,6 @@ theorem spec_load_last_write (p : Policy) (i : Nat) (st : σ) (dl : Nat) (h : Li
 
 /-! ## `change_id` takes effect atomically or not at all (backend level) -/
 
-theorem agree_self (now : Nat) (t : Tbl σ) : Agree now t (fun i => get t i) := fun _ => rfl
-
 /-- Spec level: either `change_id` answers `Ok`, and then the live record of `o` is now the live
     record of `n`, `o` is gone and nothing else moved; or it answers an error and nothing changed. -/
 theorem spec_changeId_cases (p : Policy) (now o n : Nat) (a : AMap σ) :
@@ -408,13 +401,6 @@ theorem spec_changeId_cases (p : Policy) (now o n : Nat) (a : AMap σ) :
         have := spec_changeId_atomic p now o n a r ho hno hn
         simp only [specStep, ho, hno, if_false, hn] at this
         refine ⟨fun _ => ⟨r, rfl, this.2.1, fun _ => this.2.2.1, this.2.2.2⟩, fun h => absurd rfl h⟩
-
-theorem absRes_ok_iff (g now : Nat) (r : Res σ) : absRes g now r = .ok ↔ r = .ok := by
-  cases r with
-  | loaded o => cases o with
-    | none => simp [absRes]
-    | some x => obtain ⟨a, b⟩ := x; simp [absRes]
-  | _ => simp [absRes]
 
 /-- **C13 (4), memory**: a `change_id` that answers `Ok` moves the live record of `o` (state and
     deadline) to `n` in one step — at no instant are both or neither visible — and leaves every
